@@ -37,14 +37,14 @@ theorem condition_roundtrip (u : Option String) (c : Condition) (hop : (lookupOp
     | mk left op rightParam rightValue leftCal rightCal =>
       simp only at h1 h3 hop'
       subst h1 h3
-      simp [loadCondition, writeCondition, mkEl, findFirst, findAll, Step.matches, step, XmlNode.isElem, XmlNode.tag,
+      simp [loadCondition, condFromParts, writeCondition, mkEl, findFirst, findAll, Step.matches, step, XmlNode.isElem, XmlNode.tag,
         XmlNode.ns, XmlNode.kids, XmlNode.text, XmlNode.attr?, XmlNode.attr!, XmlNode.attrs, loadParamInstanceRef, boolAttr,
         isTrueWord_pyBool, hrp, hop', bind, Except.bind, pure, Except.pure]
   · cases c with
     | mk left op rightParam rightValue leftCal rightCal =>
       simp only at h1 h2 h3 hop'
       subst h1 h2 h3
-      simp [loadCondition, writeCondition, mkEl, findFirst, findAll, Step.matches, step, XmlNode.isElem, XmlNode.tag,
+      simp [loadCondition, condFromParts, writeCondition, mkEl, findFirst, findAll, Step.matches, step, XmlNode.isElem, XmlNode.tag,
         XmlNode.ns, XmlNode.kids, XmlNode.text, XmlNode.attr?, XmlNode.attr!, XmlNode.attrs, loadParamInstanceRef, boolAttr,
         isTrueWord_pyBool, hop', bind, Except.bind, pure, Except.pure]
 
@@ -838,13 +838,13 @@ theorem binary_encoding_roundtrip (hI : IntRoundTrip) (hV : FValRoundTrip) (u : 
     injection hw with hw; subst hw
     cases adj with
     | none =>
-      simp [loadBinaryEncoding, loadLinearAdjuster, writeParamInstanceRef, findFirst, findAll, mkEl, XmlNode.kids,
+      simp [loadBinaryEncoding, loadDynamicValue, loadLinearAdjuster, writeParamInstanceRef, findFirst, findAll, mkEl, XmlNode.kids,
         Step.matches, step, XmlNode.isElem, XmlNode.tag, XmlNode.ns, XmlNode.attr!, XmlNode.attr?, XmlNode.attrs,
         isTrueWord_pyBool, bind, Except.bind, pure, Except.pure]
     | some a =>
       have h1 : readInt (toString a.slope) = .ok a.slope := hI a.slope
       have h2 : readInt (toString a.intercept) = .ok a.intercept := hI a.intercept
-      simp [loadBinaryEncoding, loadLinearAdjuster, writeParamInstanceRef, writeLinAdj, showInt, findFirst, findAll, mkEl,
+      simp [loadBinaryEncoding, loadDynamicValue, loadLinearAdjuster, writeParamInstanceRef, writeLinAdj, showInt, findFirst, findAll, mkEl,
         XmlNode.kids, Step.matches, step, XmlNode.isElem, XmlNode.tag, XmlNode.ns, XmlNode.attr!, XmlNode.attr?,
         XmlNode.attrs, isTrueWord_pyBool, bind, Except.bind, pure, Except.pure]
       have h1' : readInt a.slope.repr = .ok a.slope := h1
